@@ -54,6 +54,52 @@ func NilTest(i *ssa.If) (x ssa.Value, nilSucc int, ok bool) {
 	return x, 1, true
 }
 
+// LenZeroTest decodes a comparison of len(x) with a constant that splits ‘empty’ from ‘non-empty’
+// (len(x) == 0, != 0, > 0, < 1, >= 1, <= 0 and their mirrored forms); emptySucc is the successor index on
+// which x is empty.
+func LenZeroTest(i *ssa.If) (x ssa.Value, emptySucc int, ok bool) {
+	a, b, op, isCmp := CmpTest(i)
+	if !isCmp {
+		return nil, 0, false
+	}
+	lenArg := func(v ssa.Value) ssa.Value {
+		c, isCall := Strip(v).(*ssa.Call)
+		if !isCall {
+			return nil
+		}
+		if bi, isB := c.Call.Value.(*ssa.Builtin); isB && bi.Name() == "len" && len(c.Call.Args) == 1 {
+			return c.Call.Args[0]
+		}
+		return nil
+	}
+	if lenArg(a) == nil && lenArg(b) != nil {
+		// mirror: k op len(x)  ==  len(x) op' k
+		a, b = b, a
+		switch op {
+		case token.LSS:
+			op = token.GTR
+		case token.LEQ:
+			op = token.GEQ
+		case token.GTR:
+			op = token.LSS
+		case token.GEQ:
+			op = token.LEQ
+		}
+	}
+	x = lenArg(a)
+	k, isK := ConstInt(b)
+	if x == nil || !isK {
+		return nil, 0, false
+	}
+	switch {
+	case (op == token.EQL && k == 0) || (op == token.LEQ && k == 0) || (op == token.LSS && k == 1):
+		return x, 0, true
+	case (op == token.NEQ && k == 0) || (op == token.GTR && k == 0) || (op == token.GEQ && k == 1):
+		return x, 1, true
+	}
+	return nil, 0, false
+}
+
 // BoolCallTest decodes a condition that is (the negation of) a call result; trueSucc is the
 // successor index on which the call returned true.
 func BoolCallTest(i *ssa.If) (call *ssa.Call, trueSucc int, ok bool) {
@@ -151,6 +197,16 @@ func (e Edge) If() *ssa.If {
 
 // Synthetic reports whether the edge is derived from a materialised boolean expression.
 func (e Edge) Synthetic() bool { return e.synth != nil }
+
+// Decomposes reports whether the condition of a real edge is a materialised && / || whose known truth value
+// is carried in full by the synthetic atom edges GuardingEdges returns beside it.
+func Decomposes(e Edge) bool {
+	if e.synth != nil {
+		return false
+	}
+	ifi := BlockIf(e.From)
+	return ifi != nil && len(impliedAtoms(e.From, ifi.Cond, e.Succ == 0, 0)) > 0
+}
 
 // GuardingEdges returns all conditional edges that dominate block t, including the atomic conditions
 // implied by materialised && / || conditions.
